@@ -45,6 +45,10 @@
 (*   ListsExactlyItsSpecies  members(p) = want[p] for every live p         *)
 (*   Frame     an action on p changes members(q) of no other live q        *)
 (*   OwnerAfterInsert  after s was put into p, owner[s] = p                *)
+(*   MovedSpeciesRefersToItsPhase / RemovalKeepsForeignReference  a        *)
+(*             species moved between coexisting phases (either order)      *)
+(*             refers to the phase that lists it; removing it from q never *)
+(*             wipes a reference to another phase                          *)
 (*   NewIsWhatWasGiven a new object lists exactly the species given (none  *)
 (*                     when the argument was omitted)                      *)
 (* Narrow readings (quantifier silent): lists handed to New/Extend/Assign  *)
@@ -64,10 +68,15 @@ CONSTANTS PhaseObj,    \* identities of phase objects
           MaxOps,      \* bound on the number of calls in a behaviour
           Variant,     \* "fresh" | "shared_default"
           ElemOf,      \* [Species -> SUBSET element names]
-          CacheVariant \* "none" | "stale_on_removal"
+          CacheVariant,\* "none" | "stale_on_removal"
+          OwnerVariant \* what a removal from q does to species.phase: "keep" (the source) |
+                       \* "detach_if_self" (forget it only when it still is q) | "detach_always"
 
-VARIABLES alive, want, owner, cell, store, cache, h
-vars == <<alive, want, owner, cell, store, cache, h>>
+VARIABLES alive, want, owner, last, cell, store, cache, h
+vars == <<alive, want, owner, last, cell, store, cache, h>>
+\* `last[s]`: the phase s was most recently put into (ghost).  A species may be MOVED between two
+\* coexisting phases in either order (add to the new one then remove / pop / clear from the old one, or
+\* remove first); a removal from q must never touch the reference of a species that refers elsewhere.
 NoCache == {"-"}
 
 Cells == {<<"own", p>> : p \in PhaseObj} \cup {<<"dflt">>}
@@ -96,12 +105,22 @@ CanStep == Len(h) < MaxOps
 Init == /\ alive = {}
         /\ want = [p \in PhaseObj |-> <<>>]
         /\ owner = [s \in Species |-> "none"]
+        /\ last = [s \in Species |-> "none"]
         /\ cell = [p \in PhaseObj |-> Own(p)]
         /\ store = [c \in Cells |-> <<>>]
         /\ cache = [p \in PhaseObj |-> NoCache]
         /\ h = <<>>
 
-SetOwner(S, p) == owner' = [s \in Species |-> IF s \in S THEN p ELSE owner[s]]
+SetOwner(S, p) == /\ owner' = [s \in Species |-> IF s \in S THEN p ELSE owner[s]]
+                  /\ last' = [s \in Species |-> IF s \in S THEN p ELSE last[s]]
+\* species.phase of the species in S after they were removed from q
+Detach(S, q) ==
+   /\ owner' = [s \in Species |->
+                  IF s \notin S THEN owner[s]
+                  ELSE IF OwnerVariant = "detach_always" THEN "none"
+                  ELSE IF OwnerVariant = "detach_if_self" /\ owner[s] = q THEN "none"
+                  ELSE owner[s]]
+   /\ UNCHANGED last
 
 \* construction: arg = Default (argument omitted) or a list from GivenLists
 Default == <<"default">>
@@ -110,7 +129,7 @@ New(p, arg) ==
    /\ alive' = alive \cup {p}
    /\ IF arg = Default
       THEN /\ want' = [want EXCEPT ![p] = <<>>]
-           /\ UNCHANGED owner
+           /\ UNCHANGED <<owner, last>>
            /\ IF Variant = "shared_default" /\ KindOf[p] = "iface"
               THEN cell' = [cell EXCEPT ![p] = <<"dflt">>] /\ UNCHANGED store
               ELSE cell' = [cell EXCEPT ![p] = Own(p)] /\ store' = [store EXCEPT ![Own(p)] = <<>>]
@@ -145,7 +164,7 @@ Remove(p, s) ==
    /\ IF s \in SeqToSet(members(p))
       THEN store' = [store EXCEPT ![cell[p]] = RemoveAt(@, FirstIndex(@, s))]
       ELSE UNCHANGED store
-   /\ UNCHANGED <<alive, cell, owner>>
+   /\ UNCHANGED <<alive, cell>> /\ Detach({s}, p)
    /\ (IF CacheVariant = "stale_on_removal" THEN UNCHANGED cache ELSE Forget(p))
    /\ h' = Append(h, Rec("remove", p, s, <<>>, 0, <<>>))
 
@@ -155,7 +174,7 @@ Pop(p, i) ==      \* i is the 0-based python index
    /\ IF i < Len(members(p))
       THEN store' = [store EXCEPT ![cell[p]] = RemoveAt(@, i + 1)]
       ELSE UNCHANGED store
-   /\ UNCHANGED <<alive, cell, owner>>
+   /\ UNCHANGED <<alive, cell>> /\ Detach({want[p][i + 1]}, p)
    /\ (IF CacheVariant = "stale_on_removal" THEN UNCHANGED cache ELSE Forget(p))
    /\ h' = Append(h, Rec("pop", p, "-", <<>>, i, <<>>))
 
@@ -163,17 +182,17 @@ Clear(p) ==
    /\ CanStep /\ p \in alive /\ want[p] # <<>>
    /\ want' = [want EXCEPT ![p] = <<>>]
    /\ store' = [store EXCEPT ![cell[p]] = <<>>]
-   /\ UNCHANGED <<alive, cell, owner>> /\ Forget(p)
+   /\ UNCHANGED <<alive, cell>> /\ Detach(SeqToSet(want[p]), p) /\ Forget(p)
    /\ h' = Append(h, Rec("clear", p, "-", <<>>, 0, <<>>))
 
 Copy(p) ==        \* observer: returns a new list with the same species
    /\ CanStep /\ p \in alive /\ (h = <<>> \/ h[Len(h)].act # "copy")
-   /\ UNCHANGED <<alive, want, owner, cell, store, cache>>
+   /\ UNCHANGED <<alive, want, owner, last, cell, store, cache>>
    /\ h' = Append(h, Rec("copy", p, "-", <<>>, 0, want[p]))
 
 Observe(p) ==     \* observer: the elements / species a written phase states (a "write")
    /\ CanStep /\ p \in alive /\ (h = <<>> \/ h[Len(h)].act # "observe" \/ h[Len(h)].p # p)
-   /\ UNCHANGED <<alive, want, owner, cell, store>>
+   /\ UNCHANGED <<alive, want, owner, last, cell, store>>
    /\ cache' = IF CacheVariant = "stale_on_removal" THEN [cache EXCEPT ![p] = Reported(p)] ELSE cache
    /\ h' = Append(h, Rec("observe", p, "-", <<>>, 0, want[p]))
 
@@ -200,6 +219,10 @@ TypeOK == /\ alive \subseteq PhaseObj
           /\ \A p \in PhaseObj : cell[p] \in Cells
 ListsExactlyItsSpecies == \A p \in alive : members(p) = want[p]
 PhaseElementsAreUnionOfSpecies == \A p \in alive : Reported(p) = ElemsOfList(want[p])
+\* a species that exactly one live phase lists, and that was last put into that phase, refers to it
+Listers(s) == {p \in alive : s \in SeqToSet(want[p])}
+MovedSpeciesRefersToItsPhase ==
+   \A s \in Species : \A p \in alive : (Listers(s) = {p} /\ last[s] = p) => owner[s] = p
 OwnerAlive == \A s \in Species : owner[s] # "none" => owner[s] \in alive
 Last == h'[Len(h')]
 Acted == h' # h
@@ -207,6 +230,10 @@ Frame == [][Acted => \A q \in alive \ {Last.p} : membersNext(q) = members(q)]_va
 NewIsWhatWasGiven ==
    [][(Acted /\ Last.act = "new") =>
         membersNext(Last.p) = (IF Last.L = Default THEN <<>> ELSE Last.L)]_vars
+\* a removal from q leaves the reference of every species that refers to another phase alone
+RemovalKeepsForeignReference ==
+   [][(Acted /\ Last.act \in {"remove", "pop", "clear"}) =>
+        \A s \in Species : owner[s] # Last.p => owner'[s] = owner[s]]_vars
 OwnerAfterInsert ==
    [][Acted =>
         /\ (Last.act = "append" => owner'[Last.s] = Last.p)
